@@ -132,6 +132,13 @@ func serve(req *GenReq) (resp *GenResp) {
 			bad[0] = strings.SplitN(bad[0], ":", 2)[0] + ":Bad-Name"
 			m.Mock(&countingWriter{failAfter: -1}, bad...)
 		}
+		// ... and a generation for an unrelated package of the same module
+		other := filepath.Join(filepath.Dir(filepath.Dir(filepath.Dir(req.SrcDir))), "poison")
+		if _, err := os.Stat(other); err == nil {
+			if m, err := moq.New(moq.Config{SrcDir: other, SkipEnsure: true}); err == nil {
+				m.Mock(&countingWriter{failAfter: -1}, "Cache")
+			}
+		}
 	}
 	for i := 0; i < n; i++ {
 		if i == 1 {
@@ -217,7 +224,7 @@ func NewPool(n int) (*Pool, error) {
 	if err != nil {
 		return nil, err
 	}
-	return &Pool{exe: exe, n: n, timeout: 90 * time.Second}, nil
+	return &Pool{exe: exe, n: n, timeout: 240 * time.Second}, nil
 }
 
 func (p *Pool) start() (*worker, error) {
@@ -330,7 +337,7 @@ func (p *Pool) Run(reqs []GenReq) ([]GenResp, error) {
 		for k, i := range again {
 			sub[k] = reqs[i]
 		}
-		p2 := &Pool{exe: p.exe, n: p.n, timeout: p.timeout, retrying: true}
+		p2 := &Pool{exe: p.exe, n: p.n, timeout: 2 * p.timeout, retrying: true} // a loaded machine is slow, a hang stays a hang
 		r2, err := p2.Run(sub)
 		if err != nil {
 			return resps, err
